@@ -117,7 +117,9 @@ impl CaseInput for RevokeCase {
 
     fn exec(&self) -> Exec {
         let seen_reqs: RefCell<Vec<HttpRequest>> = RefCell::new(Vec::new());
-        let reply = response(self.status, self.content_type.as_deref(), &self.body);
+        // half of the replies also carry headers that no property gives a meaning to
+        let salt = (self.status as u64).wrapping_mul(0x9E37_79B9).wrapping_add(self.body.len() as u64 * 131 + self.content_type.as_ref().map(|c| c.len() as u64).unwrap_or(3));
+        let reply = if salt & 16 == 16 { with_irrelevant_headers(response(self.status, self.content_type.as_deref(), &self.body), salt >> 5) } else { response(self.status, self.content_type.as_deref(), &self.body) };
         let http = |r: HttpRequest| -> Result<HttpResponse, FakeErr> {
             seen_reqs.borrow_mut().push(r);
             Ok(reply.clone())
@@ -185,8 +187,8 @@ impl CaseInput for RevokeCase {
             }};
         }
         let seen = match self.tok_kind {
-            0 => go!(BasicClient::new(ClientId::new("id".into())), StandardRevocableToken::AccessToken(AccessToken::new(self.token.clone()))),
-            1 => go!(BasicClient::new(ClientId::new("id".into())), StandardRevocableToken::RefreshToken(RefreshToken::new(self.token.clone()))),
+            0 => go!(BasicClient::new(ClientId::new("id".into())), make_revocable(&self.token, false, self.status as u64 + self.token.len() as u64)),
+            1 => go!(BasicClient::new(ClientId::new("id".into())), make_revocable(&self.token, true, self.status as u64 + self.token.len() as u64)),
             _ => go!(CustomClient::new(ClientId::new("id".into())), CustomTok { secret: self.token.clone(), hint: self.hint.clone() }),
         };
 
